@@ -268,3 +268,49 @@ pub fn main(args: &[String]) {
     out.finish();
     std::fs::write(&args[2], "done").ok();
 }
+
+/// Helpers for the gcc-compiled C client (harness/cdriver/driver.c): the key pair as PEM files, and what the Rust
+/// reader sees in an archive the C client produced.
+pub fn main_cdriver(args: &[String]) {
+    use sha2::{Digest, Sha256};
+    let keys = archive::keypairs(31, 1);
+    match args[0].as_str() {
+        "genkey" => {
+            let mut der = vec![0x30, 0x2a, 0x30, 0x05, 0x06, 0x03, 0x2b, 0x65, 0x6e, 0x03, 0x21, 0x00];
+            der.extend(keys[0].1.as_bytes());
+            std::fs::write(&args[1], pem_of("PUBLIC KEY", &der)).unwrap();
+            let mut der = vec![0x30, 0x2e, 0x02, 0x01, 0x00, 0x30, 0x05, 0x06, 0x03, 0x2b, 0x65, 0x6e, 0x04, 0x22, 0x04, 0x20];
+            der.extend(keys[0].0.to_bytes());
+            std::fs::write(&args[2], pem_of("PRIVATE KEY", &der)).unwrap();
+        }
+        "read" => {
+            let mut out = serde_json::Map::new();
+            for path in &args[1..] {
+                let bytes = std::fs::read(path).unwrap();
+                let mut rc = mla::config::ArchiveReaderConfig::new();
+                rc.add_private_keys(&[keys[0].0.clone()]);
+                let v = match guarded(|| -> Result<Value, String> {
+                    let mut r = mla::ArchiveReader::from_config(Cursor::new(bytes), rc).map_err(|e| format!("{e:?}"))?;
+                    let names: Vec<String> = r.list_files().map_err(|e| format!("{e:?}"))?.cloned().collect();
+                    let mut m = serde_json::Map::new();
+                    for n in names {
+                        let mut v = vec![];
+                        let f = r.get_file(n.clone()).map_err(|e| format!("{e:?}"))?.ok_or("listed file missing")?;
+                        let size = f.size;
+                        let mut d = f.data;
+                        d.read_to_end(&mut v).map_err(|e| format!("{e:?}"))?;
+                        m.insert(hex::encode(n.as_bytes()), json!({"len": v.len(), "size": size, "sha256": hex::encode(Sha256::digest(&v))}));
+                    }
+                    Ok(Value::Object(m))
+                }) {
+                    Ok(Ok(v)) => json!({"files": v}),
+                    Ok(Err(e)) => json!({"error": e}),
+                    Err(p) => json!({"panic": p}),
+                };
+                out.insert(path.clone(), v);
+            }
+            println!("{}", Value::Object(out));
+        }
+        m => panic!("unknown mode {m}"),
+    }
+}
